@@ -506,6 +506,7 @@ func (r *Run) acquireConn(ctx context.Context, call *UpCall) (*connSlot, bool) {
 			s := &connSlot{ctx: ctx, call: call}
 			r.conns = append(r.conns, s)
 			call.GotConn = true
+			r.Faults["net.pooled-call"]++ // (r.mu is held) origin calls made through the bounded pool
 			r.mu.Unlock()
 			return s, true
 		}
